@@ -271,7 +271,20 @@ def run(cs, tier, run_index):
 
     # ---- workload invariants on the values of this history -------------------
     ppt_all = [v for t, lst in vals.items() if t.startswith("ppt_") for v in lst]
-    se1, se2, glob = vals.get("se1", []), vals.get("se2", []), vals.get("global", [])
+    se1, se2 = vals.get("se1", []), vals.get("se2", [])
+    # the global optimum the PPT / hierarchy values are compared with comes from an OWN dual SDP
+    # (min Tr Y s.t. Y >= p_i rho_i), not from the library's state_distinguishability: a defect there must not
+    # be blamed on the PPT routines
+    glob = []
+    if ppt_all or se1 or se2:
+        rhos_m = [models.to_dm(x) for x in pristine_src]
+        p_m = probs if probs is not None else [1.0 / len(rhos_m)] * len(rhos_m)
+        gm = models.min_error_sdp(list(p_m), rhos_m)
+        if gm is not None:
+            glob = [gm]
+            res.probe("own_global_optimum")
+        else:
+            res.failed("model:global_sdp")
     rng = cs.s("locc").nprng()
     locc = locc_value(pristine_src, probs, dims, rng) if (ppt_all or se1 or se2) else None
 
